@@ -50,6 +50,15 @@ def main():
             chk.violation({"law": g["rel"], "group": {k: v for k, v in g.items() if k != "info"}, "info": g["info"]})
         for s in summ["samples"][:3]:
             chk.sample(s)
+        if wn == "json":
+            # the code-shaped small-step machine: the right operand is entered only after the left one allowed it (ShortCircuit), and it refines Den
+            ex = []
+            for a in atoms[:(12 if quick else 30)]:
+                for b2 in atoms[:(12 if quick else 30)]:
+                    for op in ("and", "or"):
+                        ex.append({"t": op, "l": a, "r": b2})
+                ex.append({"t": "not", "e": a})
+            vlib.run_machine(chk, "c03-machine", data["docs"], data["cfgs"], cfgsel, ex)
     chk.cov["distinct_nontrivial"] = sum(cells.values())
     chk.notes["table_cells_hit"] = {" ".join(k): v for k, v in sorted(cells.items())}
     chk.notes["rule"] = ("all ordered pairs (A, B) of a pool of sub-expressions (plain matches, absent keys, erroring coercions, invalid "
